@@ -777,6 +777,8 @@ def dec_cmd(l):
             c["sub_valname"] = s_(r[0])
         elif h == "x-template":
             c["template"] = s_(r[0])
+        elif h == "x-flatten-help":
+            c["flatten"] = True
         elif h == "sub":
             c["subs"].append(dec_cmd(r[0][1:]))
     return c
@@ -906,7 +908,9 @@ def walk(cmd, path):
     return lv, inherited
 
 
-def oracle(case, impl):
+def oracle(case, impl, flat_bound=None):
+    """`flat_bound` is given by `flatten_oracle` when the rendered level is flattened: the screen then has no
+    "Commands" section (the subcommands are checked there) and rows of other levels (the bound covers them)."""
     cmd, width, which, path = decode_case(case)
     if impl.startswith("PANIC"):
         return "rendering panicked: " + impl[:200]
@@ -925,7 +929,7 @@ def oracle(case, impl):
     if text is None:
         return "no rendered text in the result"
     # -- no unbounded padding: the longest run of spaces is bounded independently of the width
-    bound = left_bound(level)
+    bound = left_bound(level) if flat_bound is None else flat_bound
     m = re.search(r"\(maxrun (\d+)\)", impl)
     if m and int(m.group(1)) > bound:
         return "a run of %s spaces exceeds the width-independent bound %d" % (m.group(1), bound)
@@ -1009,7 +1013,7 @@ def oracle(case, impl):
             for mk in mks:
                 if MARKER.match(mk) and mk in text:
                     return "hidden subcommand %s: %r appears" % (s["name"], mk)
-        else:
+        elif flat_bound is None:
             blk = secs.get(level.get("sub_heading") or "Commands")
             if blk is None or not re.search(r"(?m)^  %s(?![\w-])" % re.escape(s["name"]), blk):
                 return "visible subcommand %s is not listed under %s" % (s["name"], level.get("sub_heading") or "Commands")
@@ -1386,6 +1390,262 @@ def describe_help_sub(cases):
     return d
 
 
+# --------------------------------------------------------------------------------- round 5: flatten_help
+def _flat_cond(c):
+    return bool(c.get("flatten")) and any(not s.get("hide") for s in c["subs"])
+
+
+def _mark_flatten(rng, c, p):
+    if c["subs"] and rng.random() < p:
+        c["flatten"] = True
+        c["items"].append("(x-flatten-help)")
+    for s in c["subs"]:
+        _mark_flatten(rng, s, 0.5)
+
+
+def gen_flatten(tier, rng, n):
+    """trees of depth <= 3; `flatten_help` on the root (mostly) and on inner nodes (half of them); hidden subcommands,
+    flag subcommands, display orders, required arguments / groups at the parents (they go into the usage names),
+    the settings that decide whether a level writes its own line; every kind of rendering, at the root and at levels
+    reached by a parse (those are built lazily: the shape of their `help` line differs from the one of a level that
+    `build()` builds for the rendering)"""
+    cases = []
+    for _ in range(n):
+        ctr = Ctr()
+        prof = {"nsub": [1, 2, 2, 3], "nflag": [0, 1, 2], "nopt": [0, 1, 1], "npos": [0, 0, 1, 2], "p_nohelp": 0.1,
+                "p_case_twin": 0.06, "p_heading": 0.1}
+        c = gen_cmd(rng, ctr, "p", rng.choice([1, 2, 2, 3]), prof)
+        if rng.random() < 0.5:
+            add_usage_forms(rng, ctr, c, {"p_group": 0.3, "p_requires": 0.2})
+        _mark_flatten(rng, c, 0.9)
+        sx = cmd_sx(c)
+        paths = all_paths(c)
+        flat_paths = [p for p in paths if _flat_cond(_level_of(c, p))] or paths
+        for _ in range(3):
+            w = rng.choice([0, 80, 80, 100, 120, 60, 200])
+            r = rng.random()
+            if r < 0.25:
+                wh = "usage"
+            elif r < 0.45:
+                wh = "short"
+            elif r < 0.6:
+                wh = "long"
+            else:
+                wh = which_sx(rng.choice(["flag-h", "flag-help", "sub-help"]),
+                              rng.choice(flat_paths) if rng.random() < 0.8 else rng.choice(paths))
+            cases.append(case_sx(sx, w, wh))
+    return cases
+
+
+def _level_of(c, path):
+    for p in path:
+        c = next(s for s in c["subs"] if s["name"] == p)
+    return c
+
+
+def _norm_tok(t):
+    return t.strip("{}").split("|")[0]
+
+
+def _flat_owners(level, path):
+    """(path of names, node) of every subcommand that must write a line of its own into the flattened usage of
+    `level`, by the documentation of `flatten_help`: every visible subcommand, recursively through the visible
+    subcommands that are flattened themselves (such a node writes its own line unless a subcommand is required
+    and arguments do not conflict with subcommands)"""
+    out = []
+    for s in level["subs"]:
+        if s.get("hide"):
+            continue
+        sp = path + [s["name"]]
+        if _flat_cond(s):
+            if "subcommand_required" not in s["sets"] or "args_conflicts_with_subcommands" in s["sets"]:
+                out.append((sp, s))
+            out += _flat_owners(s, sp)
+        else:
+            out.append((sp, s))
+    return out
+
+
+def _flat_sections(level, path):
+    """the visible subcommands that get a flattened section: recursively through those that have the setting"""
+    out = []
+    for s in level["subs"]:
+        if s.get("hide"):
+            continue
+        sp = path + [s["name"]]
+        out.append((sp, s))
+        if s.get("flatten"):
+            out += _flat_sections(s, sp)
+    return out
+
+
+def _hidden_markers(level, through_flat_only=True):
+    """marker names of the hidden subcommands met on the way (and of everything below them)"""
+    out = []
+    for s in level["subs"]:
+        if s.get("hide"):
+            out.append(s["name"])
+            if s.get("about"):
+                out.append(s["about"].split()[0])
+        elif s.get("flatten"):
+            out += _hidden_markers(s)
+    return out
+
+
+def _all_nodes(c):
+    return [c] + [x for s in c["subs"] for x in _all_nodes(s)]
+
+
+def _flat_split(text):
+    """sections of a flattened screen: as `split_screen`, but the unindented lines right under a heading (the about
+    that `write_flat_subcommands` writes there) belong to the section"""
+    lines = text.split("\n")
+    ui = next((i for i, l in enumerate(lines) if l.startswith("Usage:")), None)
+    i = ui
+    while i < len(lines) and lines[i].strip():
+        i += 1
+    secs, order, cur, rows_seen = {}, [], None, False
+    for l in lines[i:]:
+        if l and not l.startswith(" "):
+            if l.endswith(":"):
+                cur, rows_seen = l[:-1], False
+                order.append(cur)
+                secs.setdefault(cur, [])
+            elif cur is not None and not rows_seen:
+                pass                      # about line(s) of the section
+            else:
+                cur = None
+        elif cur is not None:
+            if l.strip():
+                rows_seen = True
+            secs[cur].append(l)
+    return {k: "\n".join(v) for k, v in secs.items()}, order
+
+
+def _long_help_exists(level):
+    """the documented rule for `--help` / `help`: long help is shown when the level has any (a long about, or an
+    argument that is not hidden and has a long help, is hidden in one of the two modes only, or has a possible value
+    with a help text); otherwise the short help is shown"""
+    if level.get("long_about"):
+        return True
+    for a in level["args"]:
+        if a.get("hide"):
+            continue
+        takes = a.get("action") in ("set", "append")
+        if a.get("long_help") or a.get("hide_long") or a.get("hide_short"):
+            return True
+        if takes and not a.get("hide_pv") and any(pv.get("help") and not pv.get("hide") for pv in a["pvs"]):
+            return True
+    return False
+
+
+def flatten_oracle(case, impl):
+    """From the property text, for a level rendered with `flatten_help`: the rendering does not panic, has no
+    unbounded padding; every visible subcommand (to the depth the flattening goes) has its usage line, starting with
+    the program name and naming the path, and its section listing every argument of its own that is visible in the
+    mode and not global; hidden subcommands, and optional arguments hidden for the mode, appear nowhere.  A level
+    that is not flattened is judged by the general oracle."""
+    cmd, width, which, path = decode_case(case)
+    if impl.startswith("PANIC"):
+        return "rendering panicked: " + impl[:200]
+    level = cmd if which in ("short", "long", "usage") else walk(cmd, path)[0]
+    if level is None or not _flat_cond(level) or not impl.startswith("ok"):
+        return oracle(case, impl)
+    bound = max(left_bound(x) for x in _all_nodes(cmd))
+    r = oracle(case, impl, flat_bound=bound)
+    if r is not None:
+        return r
+    text = impl_text(impl)
+    if which == "usage":
+        usage = text
+    else:
+        scr = split_screen(text)
+        usage = scr[1]
+    base = [cmd["name"]] + (path if which not in ("short", "long", "usage") else [])
+    known = set(x["name"] for x in _all_nodes(cmd)) | {"help"}
+    ulines = [[_norm_tok(t) for t in l.split()] for l in usage.split("\n")]
+    ulines = [(l[1:] if l and l[0] == "Usage:" else l) for l in ulines]
+    owner_of = []
+    for l in ulines:
+        names = [t for t in l if t in known]
+        owner_of.append((names[-1] if names else None, l))
+    for sp, node in _flat_owners(level, base):
+        mine = [l for (o, l) in owner_of if o == sp[-1]]
+        if not mine:
+            return "visible subcommand %s has no line in the flattened usage" % "/".join(sp)
+        two = ("subcommand_negates_reqs" in node["sets"] or "args_conflicts_with_subcommands" in node["sets"])
+        if len(mine) > (2 if two else 1):
+            return "visible subcommand %s has %d lines in the flattened usage" % ("/".join(sp), len(mine))
+        l = mine[0]
+        if not l or l[0] != cmd["name"]:
+            return "the usage line of %s does not start with the program name: %r" % ("/".join(sp), " ".join(l))
+        # the names of the path, in order
+        pos = 0
+        for t in l:
+            if pos < len(sp) and t == sp[pos]:
+                pos += 1
+        if pos < len(sp):
+            return "the usage line of %s does not name its path: %r" % ("/".join(sp), " ".join(l))
+    for mk in _hidden_markers(level):
+        if MARKER.match(mk) and mk in text:
+            return "hidden subcommand: %r appears in the flattened help" % mk
+    if which == "usage":
+        return None
+    # the mode that is rendered: the arguments of the flattened subcommands are filtered by the mode of the SCREEN
+    # (observation, docs/notes/C12.md: `--help` at a level without long help of its own renders the short mode, and a
+    # `hide_short_help` argument of a flattened subcommand is then not listed although `sub --help` lists it)
+    use_long = which == "long" or (which in ("flag-help", "sub-help") and _long_help_exists(level))
+    secs, order = _flat_split(text)
+    by_last = {}
+    for t in order:
+        toks = [_norm_tok(x) for x in t.split()]
+        names = [x for x in toks if x in known]
+        if names:
+            by_last.setdefault(names[-1], []).append(t)
+    for sp, node in _flat_sections(level, base):
+        ts = by_last.get(sp[-1], [])
+        if len(ts) != 1:
+            return "visible subcommand %s has %d flattened sections" % ("/".join(sp), len(ts))
+        blk = secs[ts[0]]
+        for a in node["args"]:
+            hidden = hidden_for_mode(a, use_long)
+            if not hidden and not a.get("global"):
+                if "long" in a:
+                    ok = re.search(r"--%s(?![\w-])" % re.escape(a["long"]), blk)
+                elif "short" in a:
+                    ok = short_occurs(blk, a["short"])
+                else:
+                    nm = a["valnames"][0] if a["valnames"] else a["id"]
+                    ok = ("<%s>" % nm) in blk or ("[%s]" % nm) in blk
+                if not ok:
+                    return "visible argument %s of %s is not listed in its flattened section" % (a["id"], "/".join(sp))
+            elif hidden and not a.get("required"):
+                for mk in arg_markers(a):
+                    if mk in blk:
+                        return "argument %s of %s is hidden for this help mode but %r appears" % (a["id"], "/".join(sp), mk)
+            for pv in a["pvs"]:
+                if pv.get("hide") and MARKER.match(pv["name"]) and pv["name"] in blk:
+                    return "hidden possible value %s of %s appears" % (pv["name"], a["id"])
+    return None
+
+
+def flatten_nontrivial(case, impl):
+    m = re.search(r"\(usagetext (x[0-9a-f]*)\)", impl)
+    return bool(m) and unhex(m.group(1)).count(b"\n") >= 1
+
+
+def describe_flatten(cases):
+    d = {"cases": len(cases)}
+    for k in ("usage", "short", "long", "flag-h", "flag-help", "sub-help"):
+        d["which=" + k] = sum(1 for c in cases if "(which %s)" % k in c or "(which (%s" % k in c)
+    d["flatten marks per case (mean)"] = round(sum(c.count("(x-flatten-help)") for c in cases) / max(1, len(cases)), 2)
+    d["nested flatten (>= 2 marks)"] = sum(1 for c in cases if c.count("(x-flatten-help)") >= 2)
+    for k in ("hide", "subcommand_required", "args_conflicts_with_subcommands", "subcommand_negates_reqs", "(short_flag",
+              "(long_flag", "(x-order", "global", "(group ", "required", "disable_help_subcommand"):
+        d["has " + k] = sum(1 for c in cases if k in c)
+    return d
+
+
 def describe(cases, name):
     d = {"cases": len(cases)}
     for k in ("short", "long", "usage", "flag-h", "flag-help", "sub-help"):
@@ -1450,6 +1710,10 @@ def streams(tier, rng):
     hsp = gen_help_sub_paths(tier, rng, 600 if q else 12000)
     out.append(Stream("help-subcommand-paths", hsp, oracle=help_sub_oracle, area="parse", project=help_sub_project,
                       nontrivial=help_sub_nontrivial, describe=describe_help_sub(hsp)))
+    # round 5, generated after everything else
+    flt = gen_flatten(tier, rng, 170 if q else 4000)
+    out.append(Stream("help-flatten", flt, oracle=flatten_oracle, area="help", project=project,
+                      nontrivial=flatten_nontrivial, describe=describe_flatten(flt)))
     return out
 
 
